@@ -280,11 +280,41 @@ class Gen:
             self.emit(f"{bad}:", None, indent=False)
             abort()
 
+    def entryloop(self, f):
+        """a loop whose head is the function's first instruction (the function label and the loop
+        label stand on the same instruction, or the loop branches back to the function label
+        itself); argument registers carry values from one iteration to the next"""
+        r = self.rng
+        self.stats["functions"] += 1
+        self.stats["loops"] += 1
+        self.stats["entryloop"] = self.stats.get("entryloop", 0) + 1
+        lp = self.fresh("eloop")
+        own = r.random() < 0.4          # branch back to the function's own label
+        self.emit(f"{f.name}:", None, indent=False)
+        if not own:
+            self.emit(f"{lp}:", None, indent=False)
+        target = f.name if own else lp
+        # a0 = pointer / accumulator, a1 = counter (both arguments, both updated and re-read)
+        fill = r.random() < 0.5
+        if fill:
+            # a0 is a pointer that is bumped and only read again by the next iteration
+            self.emit("sb zero, 0(a0)", "store")
+            self.emit(f"addi a0, a0, {r.choice([1, 4])}", "arith")
+        else:
+            self.emit(f"{r.choice(['addi a0, a0, 4', 'slli a0, a0, 1', 'add a0, a0, a1'])}", "arith")
+        self.emit("addi a1, a1, -1", "arith")
+        self.emit(f"{r.choice(['bnez a1', 'bgtz a1', 'bgt a1, zero'])}, {target}", "branch")
+        if fill:
+            self.emit(f"li a0, {r.choice([0, 1])}", "set-result")
+        self.emit("ret", "ret")
+
     def any_function(self, f, callees):
         r = self.rng
         k = r.random() if self.shapes else 1.0
         if k < 0.15:
             return self.leaf(f)
+        if k < 0.32 and f.nargs == 2:
+            return self.entryloop(f)
         if k < 0.23:
             return self.guarded(f)
         if k < 0.27 and f.nargs == 1:
